@@ -4,9 +4,8 @@
   bundle passes the CRC check and re-encodes to the received bytes.
 
   Corollaries of C01 (round trip), C02 (encoder = reference) and C04 (fresh CRCs verify), stated
-  from the peer's side. They inherit C02's hypothesis `CrcAgree` (agreement of the two CRC
-  definitions, established by correspondence and check values): `…_partial`; for bundles without
-  CRCs they are unconditional.
+  from the peer's side. `decode_spec_partial` is relative to `CrcAgree` (agreement of the two CRC
+  definitions); `decode_spec` discharges it with the theorem C02.crcAgree.
 -/
 import Bp7.Props.C02
 import Bp7.Props.C04
@@ -34,6 +33,9 @@ theorem decode_spec_of_eq (b : Bundle) (h : b.wf = true) (heq : (b.toCbor).2 = S
     received bytes. Missing: a proof of `CrcAgree`. -/
 theorem decode_spec_partial (hag : CrcAgree) : DecodeSpec :=
   fun b h => decode_spec_of_eq b h (toCbor_eq_spec hag b h)
+
+/-- **C03.** Unconditional: `CrcAgree` is a theorem (C02.crcAgree). -/
+theorem decode_spec : DecodeSpec := decode_spec_partial C02.crcAgree
 
 /-- **C03 for bundles without CRCs (unconditional).** -/
 theorem decode_spec_nocrc (b : Bundle) (h : b.wf = true)
